@@ -236,6 +236,7 @@ static void run(long i, vh_rng *r)
     vd_cfg_default(&cfg, lang);
     cfg.compallsen = 1;
     cfg.cionly = vh_chance(r, 0.1);
+    if (vh_chance(r, 0.12)) { cfg.skip_tmat = 1; vh_count("scenarios_with_skip_transitions", 1); }   /* Bakis topology: the oracle takes the skip arcs wherever the matrices have them */
     if (vh_chance(r, 0.1)) cfg.cmn = VH_PICK(r, ((const char *[]){ "batch", "none" }));
     d = vd_decoder(&cfg);
     if (!d) { vh_inconc("decoder_init failed"); return; }
@@ -244,6 +245,22 @@ static void run(long i, vh_rng *r)
     vd_search_random(r, &sp, beam_mode);
     vd_search_apply(d, &sp);
     vd_gram_random(r, lang, vh_chance(r, 0.5) ? VG_FSG_TEXT : -1, 0.5, &g);
+    if (vh_chance(r, 0.15)) {
+        /* words added at run time: their context-dependent models are filled in by another code path than those of the dictionary
+         * file, and the optimum must not depend on how a pronunciation entered the dictionary.  Pronunciations are arbitrary
+         * sequences over the model's phones, so most of their word-initial and word-final phone pairs occur in no other word. */
+        char nw[2][40], ph[2][160]; int q, kk; bin_mdef_t *md = d->acmod->mdef; const char *w1 = lang == VD_FR ? "avance" : "go", *w2 = lang == VD_FR ? "dix" : "ten", *w3 = lang == VD_FR ? "de" : "forward";
+        for (q = 0; q < 2; ++q) {
+            int n = VH_PICK(r, ((int[]){ 1, 2, 2, 4, 4, 5, 6 }));
+            snprintf(nw[q], sizeof(nw[q]), "c02w%ld_%d_%d", i, (int)(vh_seed % 1000), q); ph[q][0] = 0;
+            for (kk = 0; kk < n; ++kk) { int ci, gd = 0; do { ci = (int)vh_below(r, (uint32_t)md->n_ciphone); } while (md->phone[ci].info.ci.filler && ++gd < 50); strcat(ph[q], kk ? " " : ""); strcat(ph[q], md->ciname[ci]); }
+            vh_ctx("decoder_add_word"); if (decoder_add_word(d, nw[q], ph[q], q) < 0) { vh_inconc("decoder_add_word refused %s = %s", nw[q], ph[q]); goto out; }
+        }
+        vd_gram_free(&g); memset(&g, 0, sizeof(g)); g.kind = VG_FSG_TEXT; g.lang = lang; vh_sb_init(&g.text); vfsa_init(&g.truth, 1, 0, 0);
+        vh_sb_printf(&g.text, "FSG_BEGIN added\nNUM_STATES 4\nSTART_STATE 0\nFINAL_STATE 3\nTRANSITION 0 1 1 %s\nTRANSITION 0 1 0.5 %s\nTRANSITION 1 2 1 %s\nTRANSITION 1 2 0.5 %s\nTRANSITION 2 3 1 %s\nTRANSITION 2 3 0.5 %s\nTRANSITION 3 3 0.2 %s\nTRANSITION 1 1 0.1 %s\nTRANSITION 0 2 0.3 \nFSG_END\n", w1, nw[1], nw[0], w3, w2, nw[0], nw[1], nw[0]);
+        snprintf(g.desc, sizeof(g.desc), "fsg-text with two words added at run time (%s = %s; %s = %s)", nw[0], ph[0], nw[1], ph[1]);
+        vh_count("grammars_with_words_added_at_run_time", 1);
+    }
     vd_audio_make(r, lang, vh_chance(r, 0.1) ? 1 : 0, vh_chance(r, 0.5) ? vh_range(r, 800, 20000) : 64000, &a);
     vd_pattern_random(r, &p, 1); p.partial_prob = 0;
     vd_search_desc(&sp, sdesc, sizeof(sdesc)); vd_pattern_desc(&p, pdesc, sizeof(pdesc));
